@@ -502,7 +502,10 @@ def t_get_next_batch(E):
             return v
 
         def env_step():
-            """at a suspension other tasks run: max_batch_size may be changed (the docs allow it)."""
+            """at a suspension other tasks run: max_batch_size and batch_timeout are plain attributes and may be changed
+            (the docs allow it for the size; the code reads both afresh at every use)."""
+            o.fields['batch_timeout'] = E.fresh_real('batch_timeout')
+            E.assume(o.fields['batch_timeout'].t >= 0)
             o.fields['max_batch_size'] = E.fresh_int('max_batch_size')
             E.assume(o.fields['max_batch_size'].t >= 1)
             v = o.fields['max_batch_size'].t
@@ -535,6 +538,11 @@ def t_get_next_batch(E):
                                 '`batch_timeout or None` for batch_timeout=0)')
                 raise PathEnd()
             inner, T = v.fields['inner'], _real(v.fields['timeout'])
+            E.oblige(Qn + '/timeout.the_timed_wait_uses_the_batch_timeout_in_force_when_it_starts',
+                     T == o.fields['batch_timeout'].t, props={'C10', 'C15'},
+                     detail='a value read into a local before earlier suspensions is stale: a batch_timeout assigned while a '
+                            'batch is being assembled has to count from the next wait on')
+            st['T_of_last_wait'] = T
             if isinstance(inner, Obj) and inner.cls == 'Awaitable' and inner.fields['kind'] == 'shield_in_get_next_batch' and \
                     isinstance(inner.fields['inner'], Obj) and inner.fields['inner'].cls == 'Awaitable' and \
                     inner.fields['inner'].fields['kind'] == 'q_get':
@@ -646,6 +654,12 @@ def t_get_next_batch(E):
             if isinstance(src, Obj) and src.cls == 'AbsList':
                 lst.fields['seq'] = z3.Concat(lst.fields['seq'], src.fields['seq'])
                 return NONE
+            if isinstance(src, VVal) and src.t.sort() == ValS:
+                E.oblige(Qn + '/assemble.a_dequeued_request_joins_the_batch_as_one_element', z3.BoolVal(False),
+                         props={'C10', 'C04'},
+                         detail='tasks.extend(<one (key, arg, future) tuple>) splices its three fields into the batch: '
+                                '_process_batch fails on it before its try block and every caller of the batch hangs')
+                raise PathEnd()
             if not (isinstance(src, Obj) and src.cls == 'islice' and isinstance(src.fields['it'], Obj)
                     and src.fields['it'].cls == 'drain_iter'):
                 raise Unsupported('tasks.extend(%r)' % (src,), node)
@@ -734,6 +748,8 @@ def t_get_next_batch(E):
             E.w['now'] = E.fresh('now', z3.RealSort())
             o.fields['max_batch_size'] = E.fresh_int('max_batch_size')
             E.assume(o.fields['max_batch_size'].t >= 1)
+            o.fields['batch_timeout'] = E.fresh_real('batch_timeout')
+            E.assume(o.fields['batch_timeout'].t >= 0)
             st['M_hi'] = E.fresh('M_hi', I)
             E.assume(st['M_hi'] >= o.fields['max_batch_size'].t)
             E.assume(z3.Length(arrivals) >= E.w['deq'])
@@ -808,7 +824,7 @@ def t_get_next_batch(E):
         seq = r.fields['seq']
         d = E.w['deq']
         n = z3.Length(seq)
-        T = o.fields['batch_timeout'].t
+        T = st.get('T_of_last_wait', o.fields['batch_timeout'].t)     # the value in force when the last timed wait began
         E.oblige(Qn + '/ensures.batch_is_never_empty', n >= 1)
         E.oblige(Qn + '/ensures.at_most_max_batch_size_items', n <= st['M_hi'], props={'C10', 'C15'},
                  detail='judged against the largest limit in force while items were added')
@@ -1001,7 +1017,10 @@ def t_call(E):
         n_req = E.fresh('cancellation_requests_of_the_calling_task', I)
         E.assume(n_req >= 0)
         cur_task.fields['cancelling'] = VStub('Task.cancelling', lambda E_, a, k: VInt(n_req))
-        ns.attrs['current_task'] = VStub('asyncio.current_task', lambda E_, a, k: cur_task)
+        cur_task.fields['get_name'] = VStub('Task.get_name', lambda E_, a, k: E.fresh_str('task_name'))
+        # in a done-callback (run by the loop, outside any task) there is no current task
+        ns.attrs['current_task'] = VStub('asyncio.current_task',
+                                         lambda E_, a, k: NONE if st.get('in_done_callback') else cur_task)
 
         def key_ok(k, node):
             kk = k if isinstance(k, VStr) else None
@@ -1209,7 +1228,11 @@ def t_call(E):
             E.w['pend'] = z3.BoolVal(False)
             check_inv('before done-callback')
             try:
-                E.call(cb, [fut_obj(fu)], {})
+                st['in_done_callback'] = True
+                try:
+                    E.call(cb, [fut_obj(fu)], {})
+                finally:
+                    st['in_done_callback'] = False
             except PyExc as pe:
                 from pyvc.engine import _known_cls
                 E.oblige(Qn + '/callback.runs_without_raising', z3.BoolVal(False), props={'C09', 'C11', 'C04'},
